@@ -5,13 +5,13 @@ package main
 // replay counterexamples on the real code, write evidence, report.
 
 import (
-	"regexp"
-	"go/types"
 	"encoding/json"
 	"flag"
 	"fmt"
+	"go/types"
 	"os"
 	"path/filepath"
+	"regexp"
 	"sort"
 	"strings"
 	"time"
@@ -569,24 +569,24 @@ func runCheck(o checkOpts) int {
 		"wall_s": round3(time.Since(start).Seconds()), "violations": violations,
 		"coverage": map[string]interface{}{
 			"obligations": nClaimed, "discharged": nDischarged,
-			"checker_cmd":  fmt.Sprintf("/verif/bin/zvc check -prop %s -tier %s", prop, o.tier),
-			"trusted_base": trustedBase(trusted),
-			"samples":      samples,
-			"functions_under_contract": fnames,
+			"checker_cmd":                    fmt.Sprintf("/verif/bin/zvc check -prop %s -tier %s", prop, o.tier),
+			"trusted_base":                   trustedBase(trusted),
+			"samples":                        samples,
+			"functions_under_contract":       fnames,
 			"trusted_contracts_not_verified": trusted,
-			"obligations_by_kind": byKind, "discharged_by_backend": byBackend,
+			"obligations_by_kind":            byKind, "discharged_by_backend": byBackend,
 			"solver_time_s": round3(solverTime), "obligations_retried_after_timeout": retried, "vacuity_canaries_checked": nCanary, "vacuity_canaries_inconclusive": nCanaryInconclusive,
-			"abstracted_calls_havoc_everything": abstracted,
-			"assumed_dependency_calls": externals,
-			"callee_contracts_used": called,
-			"assumed_contract_clauses_used": assumedClauses,
+			"abstracted_calls_havoc_everything":  abstracted,
+			"assumed_dependency_calls":           externals,
+			"callee_contracts_used":              called,
+			"assumed_contract_clauses_used":      assumedClauses,
 			"constructs_outside_modelled_subset": unsupported,
-			"known_findings_reported": kfLines,
-			"sweep_obligations_not_claimed": unclaimedSeen,
-			"scan": scanInfo,
-			"mutants": mutRes,
-			"integers": "64/32/16/8-bit two's-complement bit-vectors (machine arithmetic, wrapping); float64 = SMT FloatingPoint(11,53) RNE; int->float conversion abstracted as an uninterpreted finite-valued function",
-			"explanation": "Every obligation is generated from the go/ssa form of /repo's current working tree (build tag verif) and the contract comments in zygo/zz_contracts_verif.go; callers are checked against callee contracts, never callee bodies.",
+			"known_findings_reported":            kfLines,
+			"sweep_obligations_not_claimed":      unclaimedSeen,
+			"scan":                               scanInfo,
+			"mutants":                            mutRes,
+			"integers":                           "64/32/16/8-bit two's-complement bit-vectors (machine arithmetic, wrapping); float64 = SMT FloatingPoint(11,53) RNE; int->float conversion abstracted as an uninterpreted finite-valued function",
+			"explanation":                        "Every obligation is generated from the go/ssa form of /repo's current working tree (build tag verif) and the contract comments in zygo/zz_contracts_verif.go; callers are checked against callee contracts, never callee bodies.",
 		},
 		"assumptions": standingAssumptions(),
 	}
